@@ -235,6 +235,297 @@ func pieces(fn *ast.FuncDecl) []string {
 	return out
 }
 
+// ---------------------------------------------------------------- hidden state
+//
+// The exported helpers must be functions of their argument.  Facts transcribed from *all*
+// non-test files of the package:
+//   pkgVars      sorted names of every package-level `var` (a func-valued var included)
+//   structFields per struct type its field names in order
+//   writers      per function/method (sorted by name) the sorted roots it assigns to or ++/--:
+//                "var:<name>" for a package-level var, "recv.<field>" for a field of its receiver
+//                (through index/selector/star chains); functions writing nothing are omitted
+//   wrappers     per exported function of DateUtil.go (sorted by name) its body shape:
+//                "helper.<method>(<args>)" when the body is exactly `return helper.<method>(args)`
+//                with each arg a parameter (#i) or the call Now(); "other" for the clock/delta
+//                functions that take no instant or string (their effects are in `writers`);
+//                "?" for any other body of a function taking an argument
+func rootOf(e ast.Expr) (root *ast.Ident, firstSel string) {
+	for {
+		switch x := e.(type) {
+		case *ast.Ident:
+			return x, firstSel
+		case *ast.ParenExpr:
+			e = x.X
+		case *ast.StarExpr:
+			e = x.X
+		case *ast.IndexExpr:
+			e = x.X
+		case *ast.SliceExpr:
+			e = x.X
+		case *ast.SelectorExpr:
+			firstSel = x.Sel.Name
+			e = x.X
+		default:
+			return nil, ""
+		}
+	}
+}
+
+func statelessness(b *strings.Builder, fset *token.FileSet, dir string) {
+	ents, err := os.ReadDir(dir)
+	if err != nil {
+		fmt.Fprintln(os.Stderr, "xlate/c19:", err)
+		os.Exit(1)
+	}
+	var names []string
+	for _, e := range ents {
+		n := e.Name()
+		if strings.HasSuffix(n, ".go") && !strings.HasSuffix(n, "_test.go") {
+			names = append(names, n)
+		}
+	}
+	sort.Strings(names)
+	pkgVar := map[string]bool{}
+	var pkgVars []string
+	type sf struct {
+		name   string
+		fields []string
+	}
+	var structs []sf
+	var allFuncs []*ast.FuncDecl
+	var utilFuncs []*ast.FuncDecl
+	for _, n := range names {
+		f, err := parser.ParseFile(fset, filepath.Join(dir, n), nil, 0)
+		if err != nil {
+			fmt.Fprintln(os.Stderr, "xlate/c19:", err)
+			os.Exit(1)
+		}
+		for _, d := range f.Decls {
+			switch x := d.(type) {
+			case *ast.FuncDecl:
+				allFuncs = append(allFuncs, x)
+				if n == "DateUtil.go" && x.Recv == nil && x.Name.IsExported() {
+					utilFuncs = append(utilFuncs, x)
+				}
+			case *ast.GenDecl:
+				for _, sp := range x.Specs {
+					switch y := sp.(type) {
+					case *ast.ValueSpec:
+						if x.Tok == token.VAR {
+							for _, id := range y.Names {
+								pkgVar[id.Name] = true
+								pkgVars = append(pkgVars, id.Name)
+							}
+						}
+					case *ast.TypeSpec:
+						if st, ok := y.Type.(*ast.StructType); ok {
+							var fs []string
+							for _, fl := range st.Fields.List {
+								if len(fl.Names) == 0 {
+									fs = append(fs, "(embedded)")
+								}
+								for _, id := range fl.Names {
+									fs = append(fs, id.Name)
+								}
+							}
+							structs = append(structs, sf{y.Name.Name, fs})
+						}
+					}
+				}
+			}
+		}
+	}
+	sort.Strings(pkgVars)
+	sort.Slice(structs, func(i, j int) bool { return structs[i].name < structs[j].name })
+	fmt.Fprintf(b, "def pkgVars : List String := %s\n", strList(pkgVars))
+	{
+		ss := make([]string, len(structs))
+		for i, s := range structs {
+			ss[i] = fmt.Sprintf("(%s, %s)", leanStr(s.name), strList(s.fields))
+		}
+		fmt.Fprintf(b, "def structFields : List (String × List String) := [%s]\n", strings.Join(ss, ", "))
+	}
+
+	// writers
+	type wr struct {
+		name string
+		ws   []string
+	}
+	var writers []wr
+	for _, fn := range allFuncs {
+		if fn.Body == nil {
+			continue
+		}
+		recv := ""
+		name := fn.Name.Name
+		if fn.Recv != nil && len(fn.Recv.List) == 1 {
+			if len(fn.Recv.List[0].Names) == 1 {
+				recv = fn.Recv.List[0].Names[0].Name
+			}
+			t := fn.Recv.List[0].Type
+			if st, ok := t.(*ast.StarExpr); ok {
+				t = st.X
+			}
+			if id, ok := t.(*ast.Ident); ok {
+				name = id.Name + "." + name
+			}
+		}
+		// names declared locally (params, :=, var) shadow package vars
+		local := map[string]bool{}
+		if fn.Type.Params != nil {
+			for _, p := range fn.Type.Params.List {
+				for _, id := range p.Names {
+					local[id.Name] = true
+				}
+			}
+		}
+		if fn.Type.Results != nil {
+			for _, p := range fn.Type.Results.List {
+				for _, id := range p.Names {
+					local[id.Name] = true
+				}
+			}
+		}
+		ast.Inspect(fn.Body, func(n ast.Node) bool {
+			switch x := n.(type) {
+			case *ast.AssignStmt:
+				if x.Tok == token.DEFINE {
+					for _, l := range x.Lhs {
+						if id, ok := l.(*ast.Ident); ok {
+							local[id.Name] = true
+						}
+					}
+				}
+			case *ast.ValueSpec:
+				for _, id := range x.Names {
+					local[id.Name] = true
+				}
+			case *ast.RangeStmt:
+				if x.Tok == token.DEFINE {
+					for _, e := range []ast.Expr{x.Key, x.Value} {
+						if id, ok := e.(*ast.Ident); ok {
+							local[id.Name] = true
+						}
+					}
+				}
+			}
+			return true
+		})
+		set := map[string]bool{}
+		note := func(e ast.Expr) {
+			root, sel := rootOf(e)
+			if root == nil {
+				set["?"] = true
+				return
+			}
+			if recv != "" && root.Name == recv {
+				if sel == "" {
+					sel = "*"
+				}
+				set["recv."+sel] = true
+				return
+			}
+			if pkgVar[root.Name] && !local[root.Name] {
+				set["var:"+root.Name] = true
+			}
+		}
+		ast.Inspect(fn.Body, func(n ast.Node) bool {
+			switch x := n.(type) {
+			case *ast.AssignStmt:
+				if x.Tok != token.DEFINE {
+					for _, l := range x.Lhs {
+						note(l)
+					}
+				}
+			case *ast.IncDecStmt:
+				note(x.X)
+			case *ast.UnaryExpr:
+				if x.Op == token.AND { // address of a package var or receiver field escapes: treat as a write
+					if root, _ := rootOf(x.X); root != nil && (pkgVar[root.Name] && !local[root.Name] || (recv != "" && root.Name == recv)) {
+						note(x.X)
+					}
+				}
+			}
+			return true
+		})
+		if len(set) > 0 {
+			var ws []string
+			for k := range set {
+				ws = append(ws, k)
+			}
+			sort.Strings(ws)
+			writers = append(writers, wr{name, ws})
+		}
+	}
+	sort.Slice(writers, func(i, j int) bool { return writers[i].name < writers[j].name })
+	{
+		ss := make([]string, len(writers))
+		for i, w := range writers {
+			ss[i] = fmt.Sprintf("(%s, %s)", leanStr(w.name), strList(w.ws))
+		}
+		fmt.Fprintf(b, "def writers : List (String × List String) := [%s]\n", strings.Join(ss, ", "))
+	}
+
+	// wrappers
+	var ws []string
+	for _, fn := range utilFuncs {
+		var params []string
+		if fn.Type.Params != nil {
+			for _, p := range fn.Type.Params.List {
+				for _, id := range p.Names {
+					params = append(params, id.Name)
+				}
+			}
+		}
+		shape := "?"
+		if len(fn.Body.List) == 1 {
+			if r, ok := fn.Body.List[0].(*ast.ReturnStmt); ok && len(r.Results) == 1 {
+				if c, ok := r.Results[0].(*ast.CallExpr); ok {
+					if sel, ok := c.Fun.(*ast.SelectorExpr); ok {
+						if id, ok := sel.X.(*ast.Ident); ok && id.Name == "helper" {
+							args := make([]string, len(c.Args))
+							good := true
+							for i, a := range c.Args {
+								args[i] = "?"
+								switch y := a.(type) {
+								case *ast.Ident:
+									for k, p := range params {
+										if p == y.Name {
+											args[i] = fmt.Sprintf("#%d", k)
+										}
+									}
+								case *ast.CallExpr:
+									if f, ok := y.Fun.(*ast.Ident); ok && f.Name == "Now" && len(y.Args) == 0 {
+										args[i] = "Now()"
+									}
+								}
+								if args[i] == "?" {
+									good = false
+								}
+							}
+							if good {
+								shape = "helper." + sel.Sel.Name + "(" + strings.Join(args, ",") + ")"
+							}
+						}
+					}
+				}
+			}
+		}
+		if shape == "?" && len(params) == 0 {
+			shape = "other"
+		}
+		if shape == "?" {
+			// functions that only set the clock delta take an argument but no instant to render
+			if fn.Name.Name == "SetDelta" || fn.Name.Name == "SetServerTime" {
+				shape = "other"
+			}
+		}
+		ws = append(ws, fmt.Sprintf("(%s, %s)", leanStr(fn.Name.Name), leanStr(shape)))
+	}
+	sort.Strings(ws)
+	fmt.Fprintf(b, "def wrappers : List (String × String) := [%s]\n", strings.Join(ws, ", "))
+}
+
 func main() {
 	repo := flag.String("repo", "/repo", "repository root")
 	outp := flag.String("out", "", "output Lean file")
@@ -554,6 +845,8 @@ func main() {
 	fmt.Fprintf(&b, "def parseDateArgLetters : List Nat := %s\n", natList(dateArgs))
 	fmt.Fprintf(&b, "def parseNanosPerMilli : Nat := %d\n", nsMul)
 	fmt.Fprintf(&b, "def parseUnixNanoDivisor : Nat := %d\n", msDiv)
+
+	statelessness(&b, fset, dir)
 
 	b.WriteString("\nend Gen.C19\n")
 	if *outp == "" {
